@@ -15,8 +15,9 @@ RULES = {
     'R4': 'chunk_read: len < chunk_size returns -ENOBUFS without shared store or reclaim and reposts; memcpy length is the compared chunk_size',
     'R5': 'circular mmap: 2*bytes reserved, the same fd mapped MAP_FIXED|MAP_SHARED at addr and addr+bytes, offset 0; word_size = real_size/4 for the same real_size; close unmaps (word_size*4)<<1',
     'R6': 'qb_rb_space_free/used: one word is kept unused (the -1), equal indices mean empty, result scaled by the word size',
+    'R7': 'no stale payload can pass for a chunk: before a chunk is published the two words the reader will take for the next header (at the new write_pt) are overwritten - the length word always, the marker word unless it is the published chunk\'s own length word (ring filled completely) - with values that are not the published-chunk marker',
 }
-FLOORS = {'R1': 5, 'R2': 9, 'R3': 5, 'R4': 5, 'R5': 9, 'R6': 5}
+FLOORS = {'R1': 5, 'R2': 9, 'R3': 5, 'R4': 5, 'R5': 9, 'R6': 5, 'R7': 3}
 
 
 def run(ctx):
@@ -33,6 +34,7 @@ def run(ctx):
     r4(ctx, magic)
     r5(ctx)
     r6(ctx)
+    r7(ctx)
 
 
 def _lin(e):
@@ -344,3 +346,57 @@ def r6(ctx):
     urets = [ev for ev in u.returns() if ev.e is not None and cval(unwrap(ev.e)) is None and not has_call(ev.e, 'qb_rb_notifier::space_used_fn')]
     ctx.check('R6', 'space_used:scaled', bool(urets) and all(any(n.get('k') == 'bin' and n['op'] == '*' and cval(unwrap(n['r'])) == 4 for n in walk(ev.e)) for ev in urets),
               urets[0] if urets else u, 'space_used converted words -> bytes', 'space_used is not scaled by the word size')
+
+
+def r7(ctx):
+    prog = ctx.prog
+    magic = c01._magic_consts(prog)
+    f = prog.fn('qb_rb_chunk_commit')
+    pubs = [ev for ev in f.events('CALL') if is_marker_set(ev) and (is_marker_set(ev)['value'] or 0) & 0xFFFFFFFF == magic]
+    wps = list(f.stores(field='write_pt', rec='qb_ringbuffer_shared_s'))
+    if len(pubs) != 1 or len(wps) != 1:
+        raise AnalysisBroken('qb_rb_chunk_commit: publications=%d write_pt stores=%d' % (len(pubs), len(wps)))
+    pub, wp = pubs[0], wps[0]
+    # the new write position as the function names it: the value stored into write_pt (a local, or the step call itself)
+    newx = unwrap(wp.rhs)
+    names = {estr(newx)}
+    if newx.get('k') == 'var':
+        pass
+    else:
+        # write_pt = step(...) directly: any local assigned the same call counts too
+        for st in f.events('STORE'):
+            if st.rhs is not None and estr(unwrap(st.rhs)) == estr(newx) and unwrap(st.lhs).get('k') == 'var':
+                names.add(estr(st.lhs))
+
+    def at_new(ix):
+        return any(estr(n) in names for n in walk(ix))
+    # 1. the length word of the next header
+    lenclr = [ev for ev in f.events('STORE') if is_shared_data_idx(ev.lhs) and estr(unwrap(ev.lhs)['i']) in names and ev.d['op'] == '=' and
+              (cval(unwrap(ev.rhs)) is not None)]
+    ok = bool(lenclr) and all(f.ev_dominates(ev, pub) for ev in lenclr)
+    ctx.check('R7', 'next-length-word-overwritten', ok, lenclr[0] if lenclr else pub,
+              'the word the reader will take for the next chunk\'s length is overwritten before the chunk is published',
+              'nothing overwrites the word at the new write_pt: it keeps payload of an earlier lap, which the reader takes for a chunk length once the marker word matches')
+    # 2. the marker word of the next header
+    mclr = [ev for ev in f.events('CALL') if is_marker_set(ev) and ev is not pub and at_new(is_marker_set(ev)['index']) and
+            is_marker_set(ev)['value'] is not None and is_marker_set(ev)['value'] & 0xFFFFFFFF != magic]
+    ctx.check('R7', 'next-marker-word-overwritten', bool(mclr) and all(f.may_follow(ev, pub) and not f.may_follow(pub, ev) for ev in mclr), mclr[0] if mclr else pub,
+              'the word the reader will take for the next chunk\'s marker is overwritten with a non-marker value before the chunk is published',
+              'the marker word behind a new chunk is never overwritten: payload of an earlier lap that equals the marker constant is read as a chunk nobody wrote '
+              '(and read_pt runs past write_pt: the empty ring then refuses every write)')
+    if mclr:
+        # it may only be skipped when that word is the published chunk's own length word
+        oldv = [estr(st.lhs) for st in f.events('STORE') if unwrap(st.lhs).get('k') == 'var' and st.rhs is not None and last_field(unwrap(st.rhs)) == ('qb_ringbuffer_shared_s', 'write_pt')]
+        oldv += [ev.d['var'] for ev in f.events('DECL') if ev.d.get('init') is not None and last_field(unwrap(ev.d['init'])) == ('qb_ringbuffer_shared_s', 'write_pt')]
+
+        def own_word(fb, t, lab):
+            if fb.cond is None or lab not in (True, False):
+                return True
+            for a in atoms_of(fb.cond, lab):
+                if a.op == '==' and ((a.rs in oldv and at_new(a.l)) or (a.ls in oldv and at_new(a.r))):
+                    return False        # this edge says: the marker word is the chunk's own first word - skipping is right
+            return True
+        hits, _e, _n = f.search(('entry',), goal=lambda ev: ev.d is pub.d, stop=lambda ev: any(ev.d is m.d for m in mclr), edge_filter=own_word)
+        ctx.check('R7', 'marker-clear-skipped-only-for-own-word', not hits, pub,
+                  'the overwrite is skipped only when the word is the published chunk\'s own length word',
+                  'a path publishes the chunk without overwriting the next marker word although that word is free')
